@@ -88,6 +88,13 @@ def check(A):
     encode_cases(A, init_state)
     decode_cases(A, MESSAGE)
     json_module(A)
+    # the two consumers every packet passes through: the payload splitter must hand each
+    # packet's text to decode() unchanged, and a WebSocket writer must put a binary packet in
+    # a binary frame (the peer decodes a text frame as text)
+    from . import C02, clirules
+    C02.check(A, only_decode=True, prefix='C01')
+    for cf in clirules.CFLAVOURS:
+        clirules.write_loop_rules(A, cf, 'C01')
 
 
 
@@ -227,7 +234,7 @@ def encode_cases(A, init_state, prefix='C01'):
 
 
 
-def decode_cases(A, MESSAGE):
+def decode_cases(A, MESSAGE, prefix='C01'):
     dec = A.func('packet.Packet.decode')
     # ------------------------------------------------------------------ decode
     loads_t = 'self.json.loads(encoded_packet[1:])'
@@ -255,11 +262,11 @@ def decode_cases(A, MESSAGE):
                 # the handler is entered from the loads() call only in the 'raises' case
                 return jk == 'raises'
             en = A.enum(assume=assume_from(asm), handler_filter=hf)
-            ps = only_path(A, A.paths(en, dec), 'C01.decode', name, A.site(dec))
+            ps = only_path(A, A.paths(en, dec), prefix + '.decode', name, A.site(dec))
             if jk == 'raises':
                 ps = [p for p in ps if any(e.kind == 'exc' for e in p.events)]
                 if not ps:
-                    A.violated('C01.decode', 'a payload that is not JSON stays text',
+                    A.violated(prefix + '.decode', 'a payload that is not JSON stays text',
                                A.site(dec), key='decode-no-handler',
                                behaviour='plain text payloads make decode() fail')
                     continue
@@ -270,7 +277,7 @@ def decode_cases(A, MESSAGE):
             for p in ps:
                 w = final_writes(p)
                 if cls == 'error':
-                    A.check(p.outcome == 'raise' and p.cls == 'ValueError', 'C01.decode',
+                    A.check(p.outcome == 'raise' and p.cls == 'ValueError', prefix + '.decode',
                             what + ' raises ValueError', A.site(dec), key='decode-empty',
                             detail=describe(p), behaviour='an empty packet is accepted')
                     continue
@@ -278,7 +285,7 @@ def decode_cases(A, MESSAGE):
                     # int('x') raises ValueError (trusted); nothing else to check on this input
                     # except that the type is taken from the first character
                     pass
-                if not A.check(p.outcome == 'return', 'C01.decode', what + ' succeeds',
+                if not A.check(p.outcome == 'return', prefix + '.decode', what + ' succeeds',
                                A.site(dec), key='decode-ok:%s' % cls, detail=describe(p),
                                behaviour=BEHAV):
                     continue
@@ -289,31 +296,31 @@ def decode_cases(A, MESSAGE):
                 if cls in ('binary', 'b64'):
                     A.check(isinstance(bval, Const) and bval.v is True and
                             isinstance(tval, Const) and tval.v == MESSAGE,
-                            'C01.binary-message', what + ' reports a binary MESSAGE packet',
+                            prefix + '.binary-message', what + ' reports a binary MESSAGE packet',
                             A.site(dec), key='decode-binary-type',
                             detail=describe(p),
                             behaviour='decoding reports a binary packet of another type')
                     if cls == 'binary':
                         ok = dtxt == 'encoded_packet' if name.startswith('bytes ') else \
                             dtxt == 'bytes(encoded_packet)'
-                        A.check(ok, 'C01.decode', what + ' keeps the bytes as payload (as bytes)',
+                        A.check(ok, prefix + '.decode', what + ' keeps the bytes as payload (as bytes)',
                                 A.site(dec), key='decode-binary-data', detail=describe(p),
                                 behaviour=BEHAV)
                     else:
                         ok = dtxt in ('base64.b64decode(encoded_packet[1:])',
                                       'base64.standard_b64decode(encoded_packet[1:])')
-                        A.check(ok, 'C01.decode', what + ' base64-decodes the rest (standard '
+                        A.check(ok, prefix + '.decode', what + ' base64-decodes the rest (standard '
                                 'alphabet)', A.site(dec), key='decode-b64-data',
                                 detail=describe(p), behaviour=BEHAV)
                 else:
-                    A.check(isinstance(bval, Const) and bval.v is False, 'C01.decode',
+                    A.check(isinstance(bval, Const) and bval.v is False, prefix + '.decode',
                             what + ' is not binary', A.site(dec), key='decode-text-binary',
                             detail=describe(p), behaviour=BEHAV)
                     A.check(txt(w.get('self.packet_type')) == 'int(encoded_packet[0])',
-                            'C01.decode', what + ' takes the type from the first character',
+                            prefix + '.decode', what + ' takes the type from the first character',
                             A.site(dec), key='decode-type', detail=describe(p), behaviour=BEHAV)
                     want = loads_t if keep else 'encoded_packet[1:]'
-                    A.check(dtxt == want, 'C01.json-lookalike',
+                    A.check(dtxt == want, prefix + '.json-lookalike',
                             what + ' yields ' + ('the JSON value' if keep else 'the text itself'),
                             A.site(dec), key='decode-json:%s' % jk, detail=describe(p),
                             behaviour=('integer-looking / true / false text does not stay text'
